@@ -11,6 +11,8 @@
 (*   challenge(from, type, realm) host `from` sent a 401 challenge; realm  *)
 (*                                = host of the token endpoint it names    *)
 (*   log(owners)                  a log record containing secrets          *)
+(*   errout(owners)               the error value returned to the caller,  *)
+(*                                owners of the secrets in its text        *)
 (* It states exactly O1, O2, O3 of AuthObl.tla; the first violated         *)
 (* obligation is latched in `bad`.  Mirrors no code.                       *)
 (***************************************************************************)
@@ -26,6 +28,8 @@ MsgBads(to, scheme, owners) ==
   {"O1 secret of " \o o \o " sent to " \o to : o \in O1Bad(named, os, to)}
   \cup (IF O2Bad(tls, scheme, to, os) THEN {"O2 secret sent over " \o scheme \o " to " \o to} ELSE {})
 LogBads(owners) == IF O3Bad(SeqToSet(owners)) THEN {"O3 secret in log output"} ELSE {}
+\* what the client hands back to its caller is emitted output as well (callers print and log it)
+ErrBads(owners) == IF O3Bad(SeqToSet(owners)) THEN {"O3 secret in returned error"} ELSE {}
 Latch(bads) == IF bad # "" THEN bad ELSE IF bads = {} THEN "" ELSE CHOOSE x \in bads : TRUE
 
 PInit == tls = {} /\ named = {} /\ bad = ""
@@ -38,6 +42,9 @@ PChallenge(from, realm) ==
   /\ UNCHANGED <<tls, bad>>
 PLog(owners) ==
   /\ bad' = Latch(LogBads(owners))
+  /\ UNCHANGED <<tls, named>>
+PErr(owners) ==
+  /\ bad' = Latch(ErrBads(owners))
   /\ UNCHANGED <<tls, named>>
 PNote == UNCHANGED pvars
 Ok == bad = ""
